@@ -24,6 +24,18 @@ def handler(name):
 def _call(w, fn, *a, **kw):
     """guarded library call -> ('ok', value) | ('exc', e) | ('hang', None)"""
     R = w.R
+    if fn is next:
+        # a time-out thrown into a suspended enumeration finishes it: there is
+        # no second attempt, so the first one gets the whole budget
+        try:
+            return ("ok", R.guarded(fn, *a, budget=R.CONFIRM_BUDGET, **kw))
+        except R.CallTimeout:
+            if w.hang_not_judgeable():
+                w.stats["hang_on_factorially_symmetric_input_not_judged"] += 1
+                raise w.ExpensiveInput()
+            return ("hang", None)
+        except Exception as e:  # noqa: BLE001
+            return ("exc", e)
     try:
         return ("ok", R.guarded(fn, *a, **kw))
     except R.CallTimeout:
